@@ -2,7 +2,7 @@
 import os
 
 from . import core
-from .rules import stdio, cert, mark, exact, optstore, inval, idx, atomic, own, tokens, idxclass, copy, pair, structfree, buf, div, counter, sentinel, appendinit, verdict, basismap, zerotol, escape, lenclass, djsym, ndet, useb4check, norms, opencheck, shell, esolver, errlost, rescan, certdep, neverset, fmt, defaults
+from .rules import stdio, cert, mark, exact, optstore, inval, idx, atomic, own, tokens, idxclass, copy, pair, structfree, buf, div, counter, sentinel, appendinit, verdict, basismap, zerotol, escape, lenclass, djsym, ndet, useb4check, norms, opencheck, shell, esolver, errlost, rescan, certdep, neverset, fmt, defaults, scratch
 from .effects import Effects
 
 FIX = os.path.join(os.path.dirname(os.path.abspath(__file__)), "fixtures")
@@ -470,9 +470,10 @@ PROPS = {
     "C13": {
         "rules": [lambda prog, tier: zerotol.run(prog, shared_eff(prog), "factor"),
                   lambda prog, tier: escape.run(prog),
-                  lambda prog, tier: idxclass.run(prog, scope_units=("lib_mpq.c", "qsopt_mpq.c"), rule="R-IDXCLASS")],
+                  lambda prog, tier: idxclass.run(prog, scope_units=("lib_mpq.c", "qsopt_mpq.c"), rule="R-IDXCLASS"),
+                  lambda prog, tier: scratch.run(prog), lambda prog, tier: scratch.run_delay(prog)],
         "technique": "value-class (zero / non-zero / unknown) fixpoint over GMP-number locations with interprocedural parameter binding and "
-                     "dead-write elimination on the CFG",
+                     "dead-write elimination on the CFG; per-iteration must-pass analysis of the scratch-mark clearing loops",
         "explanation": "Decides one structural clause of C13: the two tolerances of the LU work record (fzero_tol, szero_tol), and every "
                        "location whose value can flow into them (SZERO_TOLER, PIVZ_TOLER, the exact zero constant, the ztoler parameters of "
                        "the row-solve helpers), only ever receive values of class zero in the rational instantiation, so no entry of L, U "
